@@ -635,7 +635,7 @@ func run(e *core.Env) {
 		O := linkpair.NewStack(e, fmt.Sprintf("out%d", k), outID, ost, false)
 		victimDials := tp.Chance(1, 2)
 		copyChallenge := tp.Chance(3, 4)
-		uaMode := tp.Intn(4) // 0,1: reflect the victim's own proof; 2: leave what the honest code put; 3: random bytes
+		uaMode := tp.Intn(4)   // 0,1: reflect the victim's own proof; 2: leave what the honest code put; 3: random bytes
 		echoMode := tp.Intn(6) // 0..2: the honest echo of the victim's challenge; 3: none; 4: a proper prefix; 5: one byte more
 		badEcho := false
 		pair := w.cn.NewPair("dishonest")
